@@ -2,7 +2,7 @@
 Model of gluon's byte-level message handling (property C13, reusable for C12):
 
   rfc822/parser.go         Split, parse, Section.{Header,Body,Literal,Children,Part,load}
-  rfc822/header_parser.go  headerParser.next (entry ranges, folding, empty-valued field)
+  rfc822/header_parser.go  headerParser.next (entry ranges, folding, empty-valued field; as of fix 1ac3d52)
   rfc822/header.go         NewHeader, Header.Fields / FieldsNot, SetHeaderValue(NoMemCopy), joinLine
   rfc822/scanner.go        NewByteScanner, readToBoundary, ScanAll
   internal/response/item_body_literal.go   ItemBodyLiteral, WithPartial, String
@@ -84,10 +84,10 @@ def Entry.value (h : Bytes) (e : Entry) : Bytes := slice h e.valueStart e.valueE
 /-- `getAll`: `header[keyStart:valueEnd]` -/
 def Entry.all (h : Bytes) (e : Entry) : Bytes := slice h e.keyStart e.valueEnd
 
-/-- the entry shape produced by the "empty header field" branch (defect #15): it ends at the key
-    (`valueEnd = keyEnd`), the `:` and the line break are not part of it.  Every other branch of `next`
-    yields `valueEnd > keyEnd`. -/
-def Entry.emptyValued (e : Entry) : Bool := e.valueEnd == e.keyEnd
+/-- the entry produced by the "empty header field" branch (`Key:` CRLF followed by a line that is not a
+    continuation): since fix 1ac3d52 it covers key, colon and line break and its value is empty
+    (`valueStart = valueEnd = hp.offset`, the start of the next line). -/
+def Entry.emptyValue (e : Entry) : Bool := e.hasKey && e.valueStart == e.valueEnd
 
 /-- outcome of the key-detection block of `next` -/
 inductive KeyScan where
@@ -120,14 +120,14 @@ def scanKey (ks : Nat) : Bytes → Nat → Bool → KeyScan
             else match tl3 with
               | [] => .value off [] (off + 3)
               | f :: _ =>
-                if !isWSP f then .done ⟨ks, off, off, off⟩ tl3 (off + 3)   -- empty header field
+                if !isWSP f then .done ⟨ks, off, off + 3, off + 3⟩ tl3 (off + 3)   -- empty header field
                 else .value off tl3 (off + 3)
         else if d == 10 then                               -- '\n': hp.offset = off+2
           if !valid then .err .nonAscii
           else match tl2 with
             | [] => .value off [] (off + 2)
             | f :: _ =>
-              if !isWSP f then .done ⟨ks, off, off, off⟩ tl2 (off + 2)     -- empty header field
+              if !isWSP f then .done ⟨ks, off, off + 2, off + 2⟩ tl2 (off + 2)     -- empty header field
               else .value off tl2 (off + 2)
         else if d == 58 then .err .parse                   -- unexpected char ':'
         else
